@@ -255,8 +255,13 @@ func cmdCheck(args []string) int {
 		return 2
 	}
 	cfg := sym.Config{Workers: *workers, MaxPaths: *maxPaths, MaxPreempt: *preempt, SolverName: *solverName}
-	cfg.RaceDetect = *prop == "C11" || *raceFlag
+	// the exploration switches goroutines only at synchronisation operations, which is complete for data-race-free
+	// code only: every property whose harnesses run goroutines is therefore explored under the race monitor, and a
+	// race is reported (it invalidates the exploration and is a defect in its own right)
+	concurrent := map[string]bool{"C02": true, "C03": true, "C04": true, "C08": true, "C09": true, "C10": true, "C11": true, "C12": true, "C17": true, "C19": true}
+	cfg.RaceDetect = concurrent[*prop] || *raceFlag
 	run.race = cfg.RaceDetect
+	run.nativeRaceAlways = *prop == "C11" || *raceFlag
 	if *tier == "thorough" {
 		cfg.TimeoutMs = 120000
 	}
